@@ -4,7 +4,7 @@ B (bounded only): postcondition of the public reductions on the *shape* of the r
    index      labels == expected label list in the expected order: ascending (lexicographic for several keys, category order for a categorical
               key or level, first appearance of the key/tuple when sort=False); observed_only=True -> only labels with a selected row;
               observed_only=False -> every label of the grouping (unused categories included), unobserved ones with the neutral value
-              (0 for size/count/sum, null for mean/min/max/first/last/var/std)
+              (0 for size/count/sum, null for mean/min/max/first/last)
    levels     one index level per key, level names == key names (Series name / dict key / DataFrame column / None)
    container  single 1-D input (array, Series, polars Series; size) -> Series named like the input; list / tuple / dict / DataFrame / 2-D array /
               polars DataFrame -> DataFrame with one column per input in input order, labelled by the input names where they have one
@@ -20,15 +20,16 @@ from . import common as C
 PROP = "C11"; LEVEL = "exploration"; P_TIER = False
 OPS = ["size", "count", "sum", "mean", "min", "max", "first", "last"]
 MASKED_OPS = ["size", "sum", "first"]            # one per neutral-value family; the label set under a mask does not depend on the reduction beyond that
-EXTRA_OPS = ["var", "std", "median"]              # shape only (median has no observed_only parameter)
-SCOPE = {"quick": "stream A (labels/order/observed): 12 key forms (float, named str Series, int, bool, Categorical and categorical Series with an unused category, one-key dict, named polars Series, "
-                  "int keys on the chunk-wise route, pa.chunked_array, 2 keys dict/DataFrame/with a categorical level, 3 keys) x every key sequence over {null,a,b,c} with n<=3 "
-                  "(every first-appearance order; several keys: 5 designed rows incl. a null in each position, n<=3 / 6 rows n<=2 + n=3 with fixed first row) x sort on/off x observed_only on/off x "
-                  "masks {none: 8 reductions, every boolean mask: size/sum/first} x value nulls {none, all rows of one label null}; "
-                  "stream B (containers/naming/column independence): 16 value containers (array, named/unnamed Series, list of 1/2, tuple, list of named / same-named Series, dict of 1/2, DataFrame of 1/2/3, "
-                  "2-D array of 2/1 columns, polars Series/DataFrame) x 5 key forms x 27 key sequences (all n<=2, 6 designed n=3) x sort x observed_only x {no mask, one mask} x "
-                  "{count,sum,mean,max,first} (+var/std/median for observed_only=True, no mask); seeded random cases up to 16 rows",
-         "thorough": "as quick with n<=4 in stream A (several keys n<=3), all n<=3 key sequences in stream B with all 8 reductions, random cases up to 48 rows"}
+EXTRA_OPS = ["var", "median"]                     # shape only, stream B (var composes three reductions; median goes through apply and has no observed_only parameter)
+SCOPE = {"quick": "stream A (labels / order / observed): 14 key forms - float array, named str Series, int array, bool array (observed_only=True only), Categorical and categorical Series with an unused category, "
+                  "one-key dict, named polars Series, int keys on the chunk-wise route (threshold lowered), pa.chunked_array in two chunks, 2 keys as dict / DataFrame / Series+Categorical, 3 keys as list - "
+                  "x every key sequence over {null,a,b,c} with n<=3 (n<=2 for categorical Series, one-key dict, polars Series, DataFrame keys), i.e. every first-appearance order; several keys: every sequence of 5 designed rows "
+                  "(a null in each position, shared first key) n<=3, or of 6 rows n<=2 plus n=3 with the first row fixed; x sort on/off x observed_only on/off x {no mask: 8 reductions; every boolean mask "
+                  "(3 designated masks at n=3 for several keys): size/sum/first} x value nulls {none; all rows of one label null (float, Categorical, 2-key dict forms)}; "
+                  "stream B (containers / naming / column independence): 17 value containers (array, named/unnamed Series, polars Series, list of 1/2, tuple, list of named Series, list of same-named Series, dict of 1/2, "
+                  "DataFrame of 1/2/3 columns, 2-D array of 2/1 columns, polars DataFrame) on one GroupBy x 5 key forms x 6 designed key sequences x sort x {observed_only on/off without mask; observed_only=False with a mask "
+                  "and an all-null label} x {count,sum,mean,first} (+ var, median for observed_only=True without mask), every column compared with the same call on that input alone; seeded random cases up to 16 rows",
+         "thorough": "as quick with n<=4 for the single-key forms of stream A (n<=3 for the naming forms and several keys), stream B over every key sequence n<=3 (n<=2 for several keys) incl. masks with observed_only=True, random cases up to 48 rows"}
 RULE = "a case = (stream, key form, key sequence, sort, observed_only, mask, value-null pattern, container); distinct = distinct canonical JSON; non-trivial = at least two labels, or a null key, or a mask, or a multi-input container"
 ASSUMPTIONS = ["pandas Series/DataFrame/Index constructors, .iloc/.loc and Index equality behave as documented",
                "first-appearance order is taken over all rows of the key (the grouping is built before any mask is known)",
@@ -194,20 +195,23 @@ def _stream_b(kkind, big):
     else:
         al = SINGLE_ALPHA[kkind]
         seqs = [list(s) for n in (1, 2, 3) for s in itertools.product(al, repeat=n)] if big else [s for s in B_SINGLE if all(x in al for x in s)]
+    B_OPS = ["count", "sum", "mean", "first"]
     for keys in seqs:
         n = len(keys)
         for sort in (True, False):
             for obs in (True, False):
-                yield {"stream": "B", "kkind": kkind, "keys": keys, "sort": sort, "observed_only": obs, "mask": None, "vnull": 0}
-            if n >= 2: yield {"stream": "B", "kkind": kkind, "keys": keys, "sort": sort, "observed_only": False, "mask": ["bool", [False] + [True] * (n - 1)], "vnull": 1}
-            if n >= 2 and big: yield {"stream": "B", "kkind": kkind, "keys": keys, "sort": sort, "observed_only": True, "mask": ["bool", [False] + [True] * (n - 1)], "vnull": 1}
+                for op in B_OPS + (EXTRA_OPS if obs else []):          # one reduction per case: all containers + the single-input references of that reduction
+                    yield {"stream": "B", "kkind": kkind, "keys": keys, "sort": sort, "observed_only": obs, "mask": None, "vnull": 0, "op": op}
+            for obs in ((False, True) if big else (False,)):
+                if n >= 2:
+                    for op in B_OPS: yield {"stream": "B", "kkind": kkind, "keys": keys, "sort": sort, "observed_only": obs, "mask": ["bool", [False] + [True] * (n - 1)], "vnull": 1, "op": op}
 
 
 def cases(tier, seed):
     big = tier == "thorough"
     a = C.roundrobin(*[_stream_a(k, big) for k in A_KINDS])
     b = C.roundrobin(*[_stream_b(k, big) for k in B_KINDS])
-    return C.roundrobin(a, b, weights=(12, 1))
+    return C.roundrobin(a, b, weights=(16, 1))
 
 
 def random_case(rnd, tier):
@@ -319,7 +323,7 @@ def check_case(sess, case):
             if _index_clauses(rec, fn, res, exp_labels, names, nkeys, FAMILY[kkind]) and not obs: _neutral_clause(rec, fn, op, res, exp_labels, sel)
         return calls
     # ---- stream B: every container on the same GroupBy object; naming, column order, column independence
-    ops = [case["op"]] if case.get("op") else (OPS[1:] if case.get("all_ops") else ["count", "sum", "mean", "first"]) + (["var", "median"] if obs and case["mask"] is None else [])
+    ops = [case["op"]] if case.get("op") else ["count", "sum", "mean", "first"] + (EXTRA_OPS if obs and case["mask"] is None else [])      # random cases carry no op: all of them
     conts = [case["container"]] if case.get("container") else CONTAINERS
     for op in ops:
         refs = {}                       # result of the same call on one input alone, per (container family of the input: numpy/pandas/polars, column data f/i/g)
